@@ -332,7 +332,19 @@ where
     /// assert!(!n1.is_connected(n2.key()));
     /// ```
     pub fn disconnect(&self, other: &K) -> Result<E, Error> {
-        self.inner.2.write().unwrap().remove_undirected(other)
+        let node = self.find_adjacent(other).ok_or(Error::EdgeNotFound)?;
+        let inbound = self.inner.2.write().unwrap().remove_inbound(other);
+        match inbound {
+            Ok(edge) => {
+                node.inner.2.write().unwrap().remove_outbound(self.key())?;
+                Ok(edge)
+            }
+            Err(_) => {
+                let edge = self.inner.2.write().unwrap().remove_outbound(other)?;
+                node.inner.2.write().unwrap().remove_inbound(self.key())?;
+                Ok(edge)
+            }
+        }
     }
 
     /// Removes all inbound and outbound connections to and from the node.
